@@ -95,6 +95,17 @@ def gather(ctx: Ctx):
             if L == inner and rng.random() < 0.15:
                 cases.append(("bracket-exhaustive", "Muss[" + w + "]"))
     ctx.coverage["bracket_contents_exhaustive_up_to"] = inner
+    # atoms written with characters the regex engine may treat like digits / letters (Unicode digits, case-fold partners)
+    odd = ["1", "P", ".", " ", "٣", "１", "²", "۵", "K", "ſ", "ᛔ"]
+    for L in range(1, 4):
+        for tup in itertools.product(odd, repeat=L):
+            w = "".join(tup)
+            if any(ord(ch) > 127 for ch in w):
+                cases.append(("unicode-atoms", "[" + w + "]"))
+                if L <= 2:
+                    cases.append(("unicode-atoms", "Muss [" + w + "]"))
+                    cases.append(("unicode-atoms", "[1P" + w + "..2]"))
+                    cases.append(("unicode-atoms", "[1P1.." + w + "]"))
     for _ in range(ctx.pick(1500, 20000)):
         L = rng.randint(maxlen + 1, 9)
         cases.append(("random", "".join(rng.choice(ALPHABET) for _ in range(L))))
@@ -106,6 +117,20 @@ def gather(ctx: Ctx):
     cases.append(("long-key", "[" + "7" * 4400 + "]"))
     cases.append(("long-key", "Muss[" + "7" * 4400 + "P 1..2]"))
     return cases
+
+
+import re as _re
+
+# the documented atoms, written down independently of the code's terminals: ASCII digits for keys and package numbers
+# (DESIGN §3.3: the repeatability a..b is read with the engine's \d), whitespace = the five characters of Lark's WS
+_DOC_ATOM = _re.compile(r"[ \t\f\r\n]*(?:[0-9]+|[0-9]+P(?:[ \t\f\r\n]*\d+\.\.[1-9]\d*)?|UB[123])[ \t\f\r\n]*")
+
+
+def documented_single_atom(s: str):
+    """for strings of the form '[' w ']' : is w a documented key / package / time condition? (None if s is not of that form)"""
+    if len(s) >= 2 and s[0] == "[" and s[-1] == "]" and "[" not in s[1:] and "]" not in s[:-1]:
+        return _DOC_ATOM.fullmatch(s[1:-1]) is not None
+    return None
 
 
 async def _is_valid(s: str):
@@ -162,6 +187,10 @@ def run(ctx: Ctx) -> None:
                 if row["resolve_default"] != "tree":
                     ctx.violation(f"is_valid_expression raises {type(e).__name__} on malformed input", {"entry": "is_valid_expression", "s": s, "raised": type(e).__name__},
                                   key=f"isvalid-raise:{type(e).__name__}:{'ahb-shaped' if 'parts' in a else 'other'}")
+        doc = documented_single_atom(s)
+        if doc is not None and (not isinstance(row["cond"], str)) != doc:
+            ctx.violation(("something that is not a documented key / package / time condition is accepted" if not doc else "a documented atom is rejected") + " by the condition parser",
+                          {"entry": "cond", "s": s, "impl": row["cond"]}, key=f"atom:{'accepted' if not doc else 'rejected'}:{s}")
         impl_rows.append(row)
     for st, s in cases[:2] + [c for c in cases if c[0] == "ahb-bad-part"][:2] + [c for c in cases if c[0] == "unicode"][:2]:
         ctx.sample({"stream": st, "s": s})
